@@ -172,7 +172,7 @@ def expected_chain(sigs_derived_first):
         if s == 'R':          # defines __reduce__
             remote = False
             break
-        if s in ('r', 'q'):
+        if s in ('r', 'q', 'w'):
             if blocked:
                 return 'warning'
             remote = True
@@ -204,6 +204,14 @@ def make_chain(sig_base_first, root):
         elif s == 'q':
             # names the flag and has a catch-all as well: remote-aware all the same
             def __getstate__(self, remote=False, _h=holder, **kw):
+                G.LOG.append(('get', _h[0].__name__, bool(remote)))
+                st = dict(self.__dict__)
+                st['_how'] = 'remote' if remote else 'local'
+                return st
+            d['__getstate__'] = __getstate__
+        elif s == 'w':
+            # the flag as a keyword-only parameter: names it, so remote-aware
+            def __getstate__(self, *, remote=False, _h=holder):
                 G.LOG.append(('get', _h[0].__name__, bool(remote)))
                 st = dict(self.__dict__)
                 st['_how'] = 'remote' if remote else 'local'
@@ -251,7 +259,7 @@ def run(ctx):
     ctx.rule = ('(1) every ordered tree with <= %d nodes over {list, tuple, dict, set, plain instance} + every single back-edge; '
                 '(2) instances of %d generated plain classes (getstate none/self/**kw x setstate x slots x getnewargs x reduce); '
                 '(3) a menu of %d standard values; (4) opt-in graphs with remote=False and through pickle/copy/deepcopy/ForkingPickler; '
-                '(5) every chain of 1-3 levels over signatures {none, (self), (self, remote=False), (self, **kw), (self, remote=False, **kw)%s} x {metaclass, duck-typed}; '
+                '(5) every chain of 1-3 levels over signatures {none, (self), (self, remote=False), (self, **kw), (self, remote=False, **kw), (self, *, remote=False)%s} x {metaclass, duck-typed}; '
                 'x protocols %s; oracle = standard pickle' % (n_max, len(plain_variants()), len(std_menu()),
                                                              ', __reduce__', list(protos)))
     # (1) opt-in-free graphs
@@ -335,7 +343,7 @@ def run(ctx):
                               'standard machinery works and never passes remote=True', engine='GRAPH')
     ctx.sample({'part': 'optin-remote-false', 'spec': ospecs[len(ospecs) // 2]})
     # (5) Warning clause
-    alphabet = ('n', 'p', 'r', 'k', 'R', 'q')
+    alphabet = ('n', 'p', 'r', 'k', 'R', 'q', 'w')
     nchains = 0
     for depth in (1, 2, 3):
         for chain in itertools.product(alphabet, repeat=depth):      # base first
